@@ -67,9 +67,13 @@ fn hexs(b: &[u8]) -> String {
 }
 
 thread_local! { static LAST_PANIC: std::cell::RefCell<Option<String>> = const { std::cell::RefCell::new(None) }; }
+thread_local! { static GUARD_DEPTH: std::cell::Cell<u32> = const { std::cell::Cell::new(0) }; }
 
 fn guarded<T>(f: impl FnOnce() -> T) -> Result<T, String> {
-    match catch_unwind(AssertUnwindSafe(f)) {
+    GUARD_DEPTH.with(|d| d.set(d.get() + 1));
+    let r = catch_unwind(AssertUnwindSafe(f));
+    GUARD_DEPTH.with(|d| d.set(d.get() - 1));
+    match r {
         Ok(v) => Ok(v),
         Err(_) => Err(LAST_PANIC.with(|p| p.borrow_mut().take()).unwrap_or_else(|| "?".into())),
     }
@@ -188,11 +192,11 @@ fn more_bodies(key: &SigningKey) -> Vec<Vec<Action>> {
         vec![Action::BridgeSudoChange(BridgeSudoChange { bridge_address: addr(15), new_sudo_address: Some(addr(16)), new_withdrawer_address: None, fee_asset: denom("nria"), disable_deposits: true })],
         vec![Action::BridgeTransfer(BridgeTransfer { to: addr(17), amount: 12, fee_asset: denom("nria"), destination_chain_address: "0xdef".into(), bridge_address: addr(18), rollup_block_number: 9, rollup_withdrawal_event_id: "evt".into() })],
         vec![Action::RecoverIbcClient(RecoverIbcClient { client_id: client(0), replacement_client_id: client(1) })],
-        vec![Action::CurrencyPairsChange(CurrencyPairsChange::Addition(vec!["BTC/USD".parse().unwrap(), "ETH/USD".parse().unwrap()]))],
-        vec![Action::CurrencyPairsChange(CurrencyPairsChange::Removal(vec!["BTC/USD".parse().unwrap()]))],
+        vec![Action::CurrencyPairsChange(CurrencyPairsChange::Addition(["BTC/USD".parse().unwrap(), "ETH/USD".parse().unwrap()].into_iter().collect()))],
+        vec![Action::CurrencyPairsChange(CurrencyPairsChange::Removal(["BTC/USD".parse().unwrap()].into_iter().collect()))],
         vec![
             Action::Transfer(Transfer { to: addr(1), amount: 0, asset: denom("ibc/0011223344556677889900112233445566778899001122334455667788990011"), fee_asset: denom("nria") }),
-            Action::BridgeLock(BridgeLock { to: addr(3), amount: u128::MAX, asset: denom("a/b/c/d"), fee_asset: denom("nria"), destination_chain_address: String::new() }),
+            Action::BridgeLock(BridgeLock { to: addr(3), amount: u128::MAX, asset: denom("transfer/channel-1/uosmo"), fee_asset: denom("nria"), destination_chain_address: String::new() }),
             Action::RollupDataSubmission(RollupDataSubmission { rollup_id: RollupId::new([0; 32]), data: vec![1u8; 1].into(), fee_asset: denom("nria") }),
         ],
     ]
@@ -446,6 +450,9 @@ fn main() {
     std::panic::set_hook(Box::new(|info| {
         let loc = info.location().map(|l| format!("{}:{}", l.file(), l.line())).unwrap_or_default();
         let msg = info.payload().downcast_ref::<&str>().map(|s| (*s).to_string()).or_else(|| info.payload().downcast_ref::<String>().cloned()).unwrap_or_default();
+        if GUARD_DEPTH.with(|d| d.get()) == 0 {
+            eprintln!("vh-wire: panic outside the code under test (harness error): {loc} {msg}");
+        }
         LAST_PANIC.with(|p| *p.borrow_mut() = Some(format!("{loc} {msg}")));
     }));
     let mut out = std::io::BufWriter::new(std::fs::File::create(&args[2]).expect("create out"));
